@@ -236,6 +236,23 @@ def gen_cases(ctx):
         for d in itertools.product(range(0, 3), repeat=3):
             if 0 in d:
                 cases.append(make_case(rng, op, d, "small", "zero-dim"))
+    # directed: shapes around the usual blocking factors (a tiled or unrolled rewrite of a kernel behaves like the plain loops
+    # inside one tile band and differs across bands): one dimension short, the other crossing 16 / 32 / 64, and both crossing
+    edge = [15, 16, 17, 20, 31, 32, 33, 35] + ([] if quick else [63, 64, 65, 70])
+    for op in OPS1:
+        for n in (31, 32, 33) if quick else (31, 32, 33, 47, 63, 64, 65, 70):
+            cases.append(make_case(rng, op, (n,), "canon", "tile-edge"))
+    for op in OPS2:
+        for big in edge:
+            for small in (1, 3):
+                cases.append(make_case(rng, op, (small, big), "canon", "tile-edge"))
+                cases.append(make_case(rng, op, (big, small), "canon", "tile-edge"))
+        for m, n in [(17, 33), (33, 17), (20, 35), (35, 20), (16, 32), (32, 16)] + ([] if quick else [(65, 17), (17, 65), (70, 33), (33, 70)]):
+            cases.append(make_case(rng, op, (m, n), "small", "tile-edge"))
+    for op in OPS3:
+        for big in (17, 33) if quick else (17, 33, 65):
+            for d in ((big, 2, 3), (2, big, 3), (2, 3, big), (big, big + 3, 2), (2, big, big + 3), (big + 3, 2, big)):
+                cases.append(make_case(rng, op, d, "small", "tile-edge"))
     # random larger shapes (strides beyond the exhaustive box); thorough: 5 derived seeds
     hi = 16 if quick else 28
     for sub in range(1 if quick else 5):
